@@ -167,6 +167,48 @@ func (in *ninst) runPublishStopFiltered() {
 	in.observe()
 }
 
+// runManySubscribers: 40 subscriptions on the root, 10 on a clone, 5 on a filtered clone; two events; the root
+// shuts down: everything closes, nothing is left (default schedule: nothing depends on how many subscribers a
+// publisher has).
+func (in *ninst) runManySubscribers() {
+	a := hx.Pod("ns", "a", "1", "l=1")
+	in.root = hx.NewRoot(filter.Null())
+	in.root.Init([]metav1.Object{a})
+	subs := func(n int) []hx.Spec {
+		var l []hx.Spec
+		for i := 0; i < n; i++ {
+			l = append(l, hx.Spec{Kind: "sub"})
+		}
+		return l
+	}
+	tree := append(subs(40), hx.Spec{Kind: "clone", Children: subs(10)}, hx.Spec{Kind: "fclone", Filter: 2, Children: subs(5)})
+	in.nodes = hx.Build(in.root.Pub, tree, nil, "", func(*hx.Node) kcache.Handler { return nil })
+	hx.Walk(in.nodes, func(n *hx.Node) {
+		if n.Err != nil {
+			vs.Fail("build | %s: %v", n.Path, n.Err)
+			return
+		}
+		if r := n.Ready(); r != nil {
+			<-r
+		}
+		if n.IsLeaf() {
+			n := n
+			go n.Consume(false)
+		}
+	})
+	in.root.Publish(kcache.NewEvent(kcache.EventTypeUpdate, hx.Pod("ns", "a", "2", "l=1")))
+	in.root.Publish(kcache.NewEvent(kcache.EventTypeCreate, hx.Pod("ns", "b", "3", "l=1")))
+	vs.SleepIdle(1)
+	hx.Walk(in.nodes, func(n *hx.Node) {
+		if n.IsLeaf() && len(n.Received) != 2 {
+			vs.Fail("node outside the closed subtree stopped working | [many-subscribers-then-stop] leaf %s received %v of 2 published events", n.Path, n.Received)
+		}
+	})
+	in.root.Stop()
+	in.refDone, in.stopDone = true, true
+	in.observe()
+}
+
 // runIdlePublisher: every subscriber of a clone and of a filtered clone leaves; later the clones are closed
 // themselves (own) or the root shuts down: a publisher without subscribers still follows its parent.
 func (in *ninst) runIdlePublisher(own bool) {
@@ -345,7 +387,7 @@ func (in *ninst) check(r *vs.Result) []string {
 		if left := ctl.LibBlocked(r); len(left) > 0 {
 			add("C12", "goroutine leak", "library goroutines alive after nodes without subscribers were closed: %v", left)
 		}
-	case "leaf-close-racing-publish-and-stop", "publish-racing-stop-with-filtered-nodes", "idle-publisher-then-stop", "stalled-typed-subscriber-then-stop", "stalled-filtered-subscriber-then-stop", "stalled-filtered-subscriber-closes-itself":
+	case "leaf-close-racing-publish-and-stop", "many-subscribers-then-stop", "publish-racing-stop-with-filtered-nodes", "idle-publisher-then-stop", "stalled-typed-subscriber-then-stop", "stalled-filtered-subscriber-then-stop", "stalled-filtered-subscriber-closes-itself":
 		for p, d := range in.done {
 			if !d {
 				add("C11", "descendant not closed", "node %s is not done at quiescence after the root was shut down", p)
@@ -391,6 +433,7 @@ func narrow(prop, tier string) []runner.Sc {
 		{name: "monitor-closed-by-own-handler", mode: "S2", bound: d},
 		{name: "leaf-close-racing-publish-and-stop", mode: "S2", bound: d},
 		{name: "publish-racing-stop-with-filtered-nodes", mode: "S2", bound: d - 1},
+		{name: "many-subscribers-then-stop", mode: "D0", bound: 0},
 		{name: "idle-publisher-then-stop", mode: "S2", bound: d - 2},
 		{name: "idle-publisher-then-closed", mode: "S2", bound: d - 2},
 		{name: "stalled-typed-subscriber-then-stop", mode: "S2", bound: d - 1, bufsiz: 2},
@@ -412,6 +455,8 @@ func narrow(prop, tier string) []runner.Sc {
 						run = in.runLeafClose
 					case "publish-racing-stop-with-filtered-nodes":
 						run = in.runPublishStopFiltered
+					case "many-subscribers-then-stop":
+						run = in.runManySubscribers
 					case "idle-publisher-then-stop":
 						run = func() { in.runIdlePublisher(false) }
 					case "idle-publisher-then-closed":
